@@ -137,6 +137,13 @@ impl FnGhost {
         }
     }
 
+    fn footprint_of(&self, k: u32, ver: u32, is_err: bool) -> usize {
+        if is_err {
+            return std::mem::size_of::<Result<String, String>>() + format!("e{}k{k}", self.f.id).len();
+        }
+        self.footprint(k, ver)
+    }
+
     fn footprint(&self, k: u32, ver: u32) -> usize {
         let payload = l1::value(self.f.id, k, ver).len();
         if self.f.is_result {
@@ -663,7 +670,7 @@ fn call_step(g: &mut FnGhost, k: u32, now: u64, out: &mut StepOut) {
         };
     let may_store = should_store; // (no freedom today; kept separate for clarity)
     let new_ver = if f.versioned { exec_ver } else { 0 };
-    let oversized = f.mem.map_or(false, |m| g.footprint(k, new_ver) > m);
+    let oversized = f.mem.map_or(false, |m| g.footprint_of(k, new_ver, returned_err) > m);
     let store_prop: &'static str = match fam {
         "result" => "C09",
         "cache_if" => "C10",
@@ -704,7 +711,7 @@ fn call_step(g: &mut FnGhost, k: u32, now: u64, out: &mut StepOut) {
                 out.findings.push(MFinding { property: store_prop, monitor: mon.into(), detail: format!("{}({k}) should have stored its result; keys {:?} -> {:?}", f.fn_name, pre, post) });
             }
             if oversized && post.contains(&k) {
-                out.findings.push(MFinding { property: "C05", monitor: "oversized-cached".into(), detail: format!("{}({k}): value of {} bytes listed with max_memory {:?}", f.fn_name, g.footprint(k, new_ver), f.mem) });
+                out.findings.push(MFinding { property: "C05", monitor: "oversized-cached".into(), detail: format!("{}({k}): value of {} bytes listed with max_memory {:?}", f.fn_name, g.footprint_of(k, new_ver, returned_err), f.mem) });
             }
             let mut cand = base.clone();
             cand.insert(k);
@@ -745,7 +752,16 @@ fn call_step(g: &mut FnGhost, k: u32, now: u64, out: &mut StepOut) {
             }
         }
         if let Some(m) = f.mem {
-            let tot: usize = post.iter().map(|kk| g.footprint(*kk, if *kk == k && executed { new_ver } else { g.present.get(kk).map_or(0, |e| e.ver) })).sum();
+            let tot: usize = post
+                .iter()
+                .map(|kk| {
+                    if *kk == k && executed && should_store {
+                        g.footprint_of(*kk, new_ver, returned_err)
+                    } else {
+                        g.present.get(kk).map_or_else(|| g.footprint(*kk, 0), |e| g.footprint_of(*kk, e.ver, e.is_err))
+                    }
+                })
+                .sum();
             if tot > m {
                 out.findings.push(MFinding { property: "C05", monitor: "over-memory".into(), detail: format!("{}: {:?} = {tot} bytes listed with max_memory {m}", f.fn_name, post) });
             }
@@ -819,6 +835,51 @@ pub struct Suite {
     pub wash: bool,
     pub alphabet: Vec<MOp>,
     pub depth: usize,
+    /// skip operation sequences containing steps that cannot do anything (pending-call suites)
+    pub prune_noops: bool,
+}
+
+/// Abstract validity of a pending-call history: no poll / drop without a started call, no second
+/// start into an occupied slot, no gate opened twice, at most three ticks.
+fn pending_history_is_tight(hist: &[MOp]) -> bool {
+    let mut slot = [false, false];
+    let mut gates = [false; 3];
+    let mut ticks = 0;
+    for op in hist {
+        match op {
+            MOp::PStart(s, _) => {
+                if slot[*s] {
+                    return false;
+                }
+                slot[*s] = true;
+            }
+            MOp::PPoll(s) => {
+                if !slot[*s] {
+                    return false;
+                }
+            }
+            MOp::PDrop(s) => {
+                if !slot[*s] {
+                    return false;
+                }
+                slot[*s] = false;
+            }
+            MOp::POpen(g) => {
+                if gates[*g] {
+                    return false;
+                }
+                gates[*g] = true;
+            }
+            MOp::Tick => {
+                ticks += 1;
+                if ticks > 3 {
+                    return false;
+                }
+            }
+            _ => {}
+        }
+    }
+    true
 }
 
 #[derive(Default)]
@@ -944,7 +1005,47 @@ pub fn explore_suite(s: &Suite, property: &str) -> SuiteResult {
         }
     }
     'outer: loop {
-        let hist: Vec<MOp> = idx.iter().map(|i| s.alphabet[*i].clone()).collect();
+        let mut hist: Vec<MOp> = idx.iter().map(|i| s.alphabet[*i].clone()).collect();
+        // prune: find the first position that makes the history loose and skip the whole subtree below it
+        let mut skip_at: Option<usize> = None;
+        if s.prune_noops {
+            for l in 1..=hist.len() {
+                if !pending_history_is_tight(&hist[..l]) {
+                    skip_at = Some(l - 1);
+                    break;
+                }
+            }
+        }
+        if let Some(pos) = skip_at {
+            // advance the odometer at `pos`, resetting everything to its right
+            let mut p = pos + 1;
+            for x in idx.iter_mut().skip(pos + 1) {
+                *x = 0;
+            }
+            loop {
+                if p == 0 {
+                    break 'outer;
+                }
+                p -= 1;
+                idx[p] += 1;
+                if idx[p] < n {
+                    break;
+                }
+                idx[p] = 0;
+            }
+            continue 'outer;
+        }
+        // a call that was suspended across a clock step and then completed: probe the freshness of what it stored
+        if s.prune_noops {
+            if let (Some(t), Some(MOp::PPoll(_))) = (s.f.ttl, hist.last()) {
+                if hist.iter().any(|o| matches!(o, MOp::Tick)) {
+                    for _ in 1..t {
+                        hist.push(MOp::Tick);
+                    }
+                    hist.push(MOp::Call(1));
+                }
+            }
+        }
         res.histories += 1;
         let mut prefix: Vec<usize> = Vec::new();
         loop {
@@ -1040,11 +1141,17 @@ pub fn suites_for(property: &str, thorough: bool) -> Vec<Suite> {
                     a.push(MOp::InvWith(0b0010));
                 }
                 let depth = if a.len() >= 6 { d(4, 5) } else { d(4, 6) };
-                out.push(Suite { f, f2: None, group: vec![], wash: false, alphabet: a, depth });
+                out.push(Suite { f, f2: None, group: vec![], wash: false, prune_noops: false, alphabet: a, depth });
+            }
+            if property == "C05" {
+                // max_memory must also bind for Result functions, predicates and refreshed entries
+                for f in fam("result").into_iter().chain(fam("cache_if")).chain(fam("inval_on")).filter(|f| f.mem.is_some()) {
+                    out.push(Suite { f, f2: None, group: vec![], wash: false, prune_noops: false, alphabet: vec![MOp::Call(1), MOp::Call(2), MOp::Call(3), MOp::Call(9)], depth: d(4, 5) });
+                }
             }
             if property == "C01" || property == "C16" {
                 for f in fam("inval_on").into_iter().chain(fam("result")).chain(fam("cache_if")) {
-                    out.push(Suite { f, f2: None, group: vec![], wash: false, alphabet: vec![MOp::Call(1), MOp::Call(2)], depth: d(3, 4) });
+                    out.push(Suite { f, f2: None, group: vec![], wash: false, prune_noops: false, alphabet: vec![MOp::Call(1), MOp::Call(2)], depth: d(3, 4) });
                 }
             }
         }
@@ -1053,7 +1160,7 @@ pub fn suites_for(property: &str, thorough: bool) -> Vec<Suite> {
             for (i, f) in plain.iter().enumerate() {
                 // interleave with a second function of the same flavour that shares the key strings
                 let f2 = plain.iter().enumerate().find(|(j, g)| *j != i && g.flavour == f.flavour).map(|(_, g)| *g);
-                out.push(Suite { f, f2, group: vec![], wash: false, alphabet: vec![MOp::Call(1), MOp::Call(2), MOp::Call(3), MOp::Call2(1), MOp::Call2(2)], depth: d(5, 6) });
+                out.push(Suite { f, f2, group: vec![], wash: false, prune_noops: false, alphabet: vec![MOp::Call(1), MOp::Call(2), MOp::Call(3), MOp::Call2(1), MOp::Call2(2)], depth: d(5, 6) });
             }
         }
         "C07" => {
@@ -1064,7 +1171,7 @@ pub fn suites_for(property: &str, thorough: bool) -> Vec<Suite> {
                     a.push(MOp::Call(9));
                 }
                 let depth = if n >= 3 { d(5, 6) } else { d(5, 7) };
-                out.push(Suite { f, f2: None, group: vec![], wash: false, alphabet: a, depth });
+                out.push(Suite { f, f2: None, group: vec![], wash: false, prune_noops: false, alphabet: a, depth });
             }
         }
         "C09" => {
@@ -1073,7 +1180,7 @@ pub fn suites_for(property: &str, thorough: bool) -> Vec<Suite> {
                 if f.mem.is_some() {
                     a.push(MOp::Call(9));
                 }
-                out.push(Suite { f, f2: None, group: vec![], wash: false, alphabet: a, depth: d(4, 5) });
+                out.push(Suite { f, f2: None, group: vec![], wash: false, prune_noops: false, alphabet: a, depth: d(4, 5) });
             }
         }
         "C10" => {
@@ -1082,7 +1189,7 @@ pub fn suites_for(property: &str, thorough: bool) -> Vec<Suite> {
                 if f.limit.is_some() || thorough {
                     a.push(MOp::Call(3));
                 }
-                out.push(Suite { f, f2: None, group: vec![], wash: false, alphabet: a, depth: d(4, 5) });
+                out.push(Suite { f, f2: None, group: vec![], wash: false, prune_noops: false, alphabet: a, depth: d(4, 5) });
             }
         }
         "C11" => {
@@ -1094,7 +1201,7 @@ pub fn suites_for(property: &str, thorough: bool) -> Vec<Suite> {
                 if f.ttl.is_some() {
                     a.push(MOp::Tick);
                 }
-                out.push(Suite { f, f2: None, group: vec![], wash: false, alphabet: a, depth: if f.ttl.is_some() { d(5, 6) } else { d(4, 5) } });
+                out.push(Suite { f, f2: None, group: vec![], wash: false, prune_noops: false, alphabet: a, depth: if f.ttl.is_some() { d(5, 6) } else { d(4, 5) } });
             }
         }
         "C13" => {
@@ -1107,7 +1214,7 @@ pub fn suites_for(property: &str, thorough: bool) -> Vec<Suite> {
                 if thorough {
                     a.push(MOp::InvWith(0b0100));
                 }
-                out.push(Suite { f, f2: None, group: vec![], wash: false, alphabet: a, depth: 6 });
+                out.push(Suite { f, f2: None, group: vec![], wash: false, prune_noops: false, alphabet: a, depth: 6 });
             }
             for (i, f) in cands.iter().enumerate() {
                 let f2 = cands.get((i + 1) % cands.len()).copied();
@@ -1121,7 +1228,7 @@ pub fn suites_for(property: &str, thorough: bool) -> Vec<Suite> {
                 if thorough {
                     a.push(MOp::Call2(1));
                 }
-                out.push(Suite { f, f2, group: vec![], wash: false, alphabet: a, depth: d(4, 5) });
+                out.push(Suite { f, f2, group: vec![], wash: false, prune_noops: false, alphabet: a, depth: d(4, 5) });
             }
         }
         "C20" => {
@@ -1145,13 +1252,15 @@ pub fn suites_for(property: &str, thorough: bool) -> Vec<Suite> {
                     a.push(MOp::PPoll(1));
                     a.push(MOp::Req("tag", "t".to_string()));
                 }
-                let depth = match (thorough, a.len()) {
-                    (false, n) if n >= 9 => 5,
+                // no-op steps are pruned, so the depth can be larger than the raw alphabet suggests
+                let depth = match (thorough, f.gates) {
+                    (false, 1) => 7,
                     (false, _) => 6,
-                    (true, n) if n >= 12 => 6,
-                    (true, _) => 7,
+                    (true, 1) => 9,
+                    (true, 2) => 8,
+                    (true, _) => 8,
                 };
-                out.push(Suite { f, f2: None, group: vec![f], wash: false, alphabet: a, depth });
+                out.push(Suite { f, f2: None, group: vec![f], wash: false, prune_noops: true, alphabet: a, depth });
             }
         }
         "C12" => {
@@ -1185,7 +1294,7 @@ pub fn suites_for(property: &str, thorough: bool) -> Vec<Suite> {
                 a.push(MOp::Req("cache", group[1].name.to_string()));
                 a.push(MOp::Req("cache", "no_such_cache".to_string()));
                 a.push(MOp::Req("cache", "x".to_string()));
-                out.push(Suite { f: group[0], f2: None, group, wash: true, alphabet: a, depth: d(3, 3) });
+                out.push(Suite { f: group[0], f2: None, group, wash: true, prune_noops: false, alphabet: a, depth: d(3, 3) });
             }
         }
         "C15" => {
@@ -1198,11 +1307,11 @@ pub fn suites_for(property: &str, thorough: bool) -> Vec<Suite> {
                     a.push(MOp::Tick);
                 }
                 a.push(MOp::InvWith(0b0010));
-                out.push(Suite { f, f2, group: vec![], wash: false, alphabet: a, depth: d(4, 5) });
+                out.push(Suite { f, f2, group: vec![], wash: false, prune_noops: false, alphabet: a, depth: d(4, 5) });
             }
             for (i, f) in named.iter().enumerate().take(if thorough { 32 } else { 8 }) {
                 let f2 = Some(named[(i + 1) % named.len()]);
-                out.push(Suite { f, f2, group: vec![], wash: false, alphabet: vec![MOp::Call(1), MOp::Call2(1), MOp::StatsReset, MOp::StatsReset2], depth: d(4, 5) });
+                out.push(Suite { f, f2, group: vec![], wash: false, prune_noops: false, alphabet: vec![MOp::Call(1), MOp::Call2(1), MOp::StatsReset, MOp::StatsReset2], depth: d(4, 5) });
             }
         }
         _ => {}
